@@ -601,3 +601,61 @@ def witness_of(cfg, ops, tag, seed=1):
     except CaseAbort:
         pass
     return c.violations[0] if c.violations else None
+
+
+# -------------------------------------------------------------------------------------
+# bounded-exhaustive histories: every sequence of length L over a small concrete alphabet
+# -------------------------------------------------------------------------------------
+def alphabet(kind, weighted):
+    """A small alphabet of concrete abstract operations over the labels a < b < c (all the interesting
+    collisions: permuted re-insertion, nested hyperedges, shrink-onto-existing, batch with repeats, copy, clear)."""
+    a, b, c = 10, 20, 40
+    w = (lambda x: x) if weighted else (lambda x: None)
+    fs = frozenset
+
+    def key(nodes, i=0):
+        if kind == "H":
+            return fs(nodes)
+        if kind == "D":
+            nodes = list(nodes)
+            return (fs(nodes[:1]), fs(nodes[1:])) if i == 0 else (fs(nodes[1:]), fs(nodes[:1]))
+        if kind == "T":
+            return (i, fs(nodes))
+        return (fs(nodes), ["L1", "L2"][i])
+
+    k_ab, k_ab2, k_abc, k_bc = key([a, b]), key([a, b], 1), key([a, b, c]), key([b, c])
+    A = [
+        ("add_node", {"n": c, "md": {"k": 1}}),
+        ("add_edge", {"key": k_ab, "w": w(2), "md": {"m": 1}}),
+        ("add_edge", {"key": k_ab, "w": w(0.5), "md": None}),
+        ("add_edge", {"key": k_ab2, "w": w(1.5), "md": None}),
+        ("add_edge", {"key": k_abc, "w": w(3), "md": {"m": 2}}),
+        ("add_edge", {"key": k_bc, "w": None, "md": None}),
+        ("add_edges", {"items": [(k_bc, w(1), None), (k_abc, w(2.5), None)], "use_w": bool(weighted), "use_md": False, "may_refuse": False}),
+        ("remove_edge", {"key": k_ab}),
+        ("remove_edge", {"key": k_abc}),
+        ("remove_node", {"n": a, "keep": False}),
+        ("remove_node", {"n": a, "keep": True}),
+        ("remove_node", {"n": c, "keep": True}),
+        ("set_weight", {"key": k_ab, "w": 7 if weighted else 1}),
+        ("set_attr_node", {"n": a, "f": "f", "v": 1}),
+        ("set_attr_edge", {"key": k_bc, "f": "f", "v": [1]}),
+    ]
+    if kind != "M":
+        A += [("clear", {}), ("copy", {})]
+    if kind != "D":
+        A.append(("add_edge", {"key": key([a]), "w": w(1), "md": None}))  # singleton hyperedge
+    return A
+
+
+def exhaustive_history(ctx, rng, kind, weighted, number, length, tag):
+    A = alphabet(kind, weighted)
+    ops = []
+    x = number
+    for _ in range(length):
+        ops.append(copy.deepcopy(A[x % len(A)]))
+        x //= len(A)
+    cfg = Cfg(random.Random(0), kind, weighted=weighted, uni="gaps")
+    cfg.labels = [10, 20, 40]
+    cfg.full_battery = True
+    return run_history(ctx, rng, cfg, ops=ops, battery_every=1, tag=tag)
